@@ -617,6 +617,9 @@ pub fn run_life(case_in: &J, out: &mut Out, ic_build: bool) {
             "boolid" => ins(&mut rendered.text, "  true: {zz: q}\n"),
             "nullid" => ins(&mut rendered.text, "  ~: {zz: q}\n"),
             "docstart" => rendered.text = format!("---\n{}", rendered.text),
+            // an identifier block written with a YAML merge key: serde_yaml leaves `<<` alone unless asked, so the block has
+            // the literal key `<<` (not a valid key) - on BOTH paths
+            "mergeid" => ins(&mut rendered.text, "  zzbase: &zb {zz: q}\n  zzm:\n    <<: *zb\n"),
             _ => rendered.text = format!("# a comment\n{}", rendered.text),
         }
         match serde_yaml::from_str::<Y>(&rendered.text) {
@@ -633,9 +636,12 @@ pub fn run_life(case_in: &J, out: &mut Out, ic_build: bool) {
     } else {
         out.ev(json!({"ev":"load","via":"str","out":loaded.tag()}));
     }
-    if plan["via_value"].as_bool().unwrap_or(false) && again_base.is_none() {
-        let l2 = load_value(rendered.value.clone());
-        out.ev(json!({"ev":"load2","via":"value","out":l2.tag()}));
+    let via_value = plan["via_value"].as_bool().unwrap_or(false);
+    if (via_value || plan["via_file"].as_bool().unwrap_or(false)) && again_base.is_none() {
+        if via_value {
+            let l2 = load_value(rendered.value.clone());
+            out.ev(json!({"ev":"load2","via":"value","out":l2.tag()}));
+        }
         // third path: Rule::load of a file holding this text (the same path for every case of the process); what it
         // loads must be THIS text's rule - compared through the serialised form
         let l3 = load_file(&rendered.text);
